@@ -251,11 +251,6 @@ public:
 	}
 	lns& operator*=(double rhs) { return operator*=(lns(rhs)); }
 	lns& operator/=(const lns& rhs) {
-		if (isnan()) return *this;
-		if (rhs.isnan()) {
-			setnan();
-			return *this;
-		}
 		if (rhs.iszero()) {
 #if LNS_THROW_ARITHMETIC_EXCEPTION
 			throw lns_divide_by_zero();
@@ -263,6 +258,11 @@ public:
 			setnan();
 			return *this;
 #endif
+		}
+		if (isnan()) return *this;
+		if (rhs.isnan()) {
+			setnan();
+			return *this;
 		}
 		if (iszero()) return *this;
 
